@@ -27,14 +27,14 @@ type ChildCfg struct {
 
 // CtlConfig is the generated controller configuration.
 type CtlConfig struct {
-	Kind             string            `json:"kind"` // composite | decorator
-	Name             string            `json:"name"`
-	ParentResource   string            `json:"parentResource"`
-	ParentResources  []string          `json:"parentResources,omitempty"` // decorator
+	Kind            string   `json:"kind"` // composite | decorator
+	Name            string   `json:"name"`
+	ParentResource  string   `json:"parentResource"`
+	ParentResources []string `json:"parentResources,omitempty"` // decorator
 	// TwinParent (decorator): "" | "ignores" | "heeds". A first resource rule is added for a resource with the
 	// same plural and kind as the parent's in API group twin.io (served by the world), with ignoreStatusChanges
 	// set ("ignores") or unset ("heeds"), whatever IgnoreStatus says for the real parent rule.
-	TwinParent string `json:"twinParent,omitempty"`
+	TwinParent       string            `json:"twinParent,omitempty"`
 	Children         []ChildCfg        `json:"children"`
 	GenerateSelector bool              `json:"generateSelector,omitempty"`
 	FinalizeHook     bool              `json:"finalizeHook,omitempty"`
